@@ -271,6 +271,10 @@ def _model(seed, double=False):
         s.set_R_mat(key, 0.5 * (X + s.rvec.conj_XX_R(X)), reset=True)
     if double:
         s.double_spin()          # every band twice: exact two-fold degeneracies everywhere
+        if double == "mixed":    # ... with a position matrix that couples the two copies: the members of a pair differ in everything but energy
+            nR, nw = s.rvec.nRvec, s.num_wann
+            A = rnp.random.rand(nR, nw, nw, 3) + 1j * rnp.random.rand(nR, nw, nw, 3)
+            s.set_R_mat("AA", 0.5 * (A + s.rvec.conj_XX_R(A)), reset=True)
     return s
 
 
@@ -306,14 +310,29 @@ def _real_periodic_gauge(rng, n):
             q2 = [q for q in ("energy", "berry_curvature") if q in wb.evaluate_k.__globals__["available_quantities"]]
             d0 = wb.evaluate_k(s2, k=k, quantities=q2, return_single_as_dict=True)
             d1 = wb.evaluate_k(s2, k=k, quantities=q2, return_single_as_dict=True, parameters_K={"random_gauge": True})
+            d2 = wb.evaluate_k(s2, k=k + G, quantities=q2, return_single_as_dict=True)
         cases += 1
         bad = ["%s: k vs k+G" % q for q in qs if not rnp.allclose(a[q], b[q], atol=1e-7 * (1 + abs(a[q]).max()))]
         bad += ["%s: random_gauge" % q for q in qs if not rnp.allclose(a[q], c[q], atol=1e-7 * (1 + abs(a[q]).max()))]
+        with contextlib.redirect_stdout(io.StringIO()):
+            s3 = _model(seed + 2, double="mixed")
+            e0 = wb.evaluate_k(s3, k=k, quantities=q2, return_single_as_dict=True)
+            e1 = wb.evaluate_k(s3, k=k, quantities=q2, return_single_as_dict=True, parameters_K={"random_gauge": True})
+            e2 = wb.evaluate_k(s3, k=k + G, quantities=q2, return_single_as_dict=True)
+        for q in q2:
+            for nm, y in (("random_gauge", e1[q]), ("k vs k+G", e2[q])):
+                if not rnp.allclose(e0[q], y, atol=1e-6 * (1 + abs(e0[q]).max())):
+                    bad.append("%s: %s on a degenerate model whose position matrix couples the members of a pair, band-by-band values differ by %.2e" % (q, nm, abs(e0[q] - y).max()))
         for q in q2:
             x0 = d0[q].reshape((d0[q].shape[0] // 2, 2) + d0[q].shape[1:]).sum(axis=1)
             x1 = d1[q].reshape((d1[q].shape[0] // 2, 2) + d1[q].shape[1:]).sum(axis=1)
             if not rnp.allclose(x0, x1, atol=1e-6 * (1 + abs(x0).max())):
                 bad.append("%s: random_gauge on a doubled (degenerate) model, pair sums differ by %.2e" % (q, abs(x0 - x1).max()))
+            # the tabulated value of a member of a degenerate pair is the pair's average, the same for both members: band by band it
+            # depends neither on the gauge inside the pair nor on the eigen-solver's choice at k + G
+            for nm, y in (("random_gauge", d1[q]), ("k vs k+G", d2[q])):
+                if not rnp.allclose(d0[q], y, atol=1e-6 * (1 + abs(d0[q]).max())):
+                    bad.append("%s: %s on a doubled (degenerate) model, band-by-band values differ by %.2e" % (q, nm, abs(d0[q] - y).max()))
         if bad:
             fails.append(dict(input=dict(seed=seed, k=k.tolist(), G=G.tolist()), clause="value(k) == value(k+G) == value(k, random gauge)", failed=bad))
     return dict(cases=cases, failures=fails, distinct=cases)
@@ -425,3 +444,11 @@ def _replay_gauge_formula(mv, ob):
     import random
     r = _real_periodic_gauge(random.Random(4), 10)
     return dict(reproduced=bool(r["failures"]), input="installed evaluate_k with random_gauge on a model with exact degeneracies", failed=r["failures"][:3])
+
+
+
+# the band groups every Fermi-sea trace is taken over never cut a degenerate multiplet (C13's unit, registered here as well: a sea group that
+# ends inside a degenerate pair makes the integrated result depend on the gauge inside the pair)
+from contracts.C13 import _groups_unit as _c13_groups      # noqa: E402
+_c13_groups(3, True, prop="C04")
+_c13_groups(4, True, prop="C04")
